@@ -25,13 +25,14 @@ def run(pid, tier, seed):
             ("ledger", ["ledger.cxx"], ["record", "--seed", seed + 1])]
     if not q:
         runs.append(("make", ["make.cxx"], ["record", "--seed", seed, "--runs", 3, "--len", 300]))
-    for name, srcs, args in runs:
+    def san_run(job):
+        name, srcs, args = job
         e = vlib.build_harness(name, srcs, cfg="asan")
         p = os.path.join(tdir, "%s-%s-asan-%s.ndjson" % (pid, tier, name))
         vlib.record_trace(e, args, p, timeout=2400, leaks=True)
         last = open(p).read().splitlines()[-1:]
         ev = json.loads(last[0]) if last else {}
-        san.append((name, ev if ev.get("e") in ("Sanitizer", "Crash") else None, p))
+        return (name, ev if ev.get("e") in ("Sanitizer", "Crash") else None, p)
 
     # the same recorders (plain build) under valgrind's memcheck: reads of storage that no live object has written (an arena
     # tail, a recycled block) and leaks, which the sanitizer build does not see when the bytes lie inside a live allocation
@@ -40,8 +41,8 @@ def run(pid, tier, seed):
                ("ledger", ["ledger.cxx"], ["record", "--seed", seed + 2]), ("units", ["units.cxx"], ["record", "--runs", 2, "--len", 40]),
                ("unify", ["unify.cxx"], ["record", "--seed", seed, "--runs", 2, "--len", 60]),
                ("make", ["make.cxx"], ["record", "--seed", seed, "--runs", 2 if q else 6, "--len", 150 if q else 400])]
-    vg = []
-    for name, srcs, args in vg_runs:
+    def vg_run(job):
+        name, srcs, args = job
         e = vlib.build_harness(name, srcs)
         try:
             r = subprocess.run(["valgrind", "-q", "--error-exitcode=9", "--leak-check=full", "--errors-for-leak-kinds=definite,indirect", e]
@@ -50,7 +51,17 @@ def run(pid, tier, seed):
             raise vlib.ModelFailure("valgrind run of %s timed out" % name)
         if r.returncode == 2:
             raise vlib.ModelFailure("recorder %s failed under valgrind: %s" % (name, r.stderr[-500:]))
-        vg.append((name, r.returncode, r.stderr))
+        return (name, r.returncode, r.stderr)
+
+    for job in runs:                       # (builds first, one at a time: they take the build locks)
+        vlib.build_harness(job[0], job[1], cfg="asan")
+    for job in vg_runs:
+        vlib.build_harness(job[0], job[1])
+    with ThreadPoolExecutor(max_workers=10) as ex:
+        sf = [ex.submit(san_run, j) for j in runs]
+        vf = [ex.submit(vg_run, j) for j in vg_runs]
+        san = [f.result() for f in sf]
+        vg = [f.result() for f in vf]
 
     def model(leaky):
         cfg = os.path.join(vlib.cfg_dir(), "IprLedgerMC-%s-%s-%d.cfg" % (pid, leaky, os.getpid()))
@@ -103,9 +114,10 @@ def run(pid, tier, seed):
         "traces_validated_against_impl": tr["executions"] - len([r for r in tr["rejections"]]) + len([1 for _, ev, _ in san if ev is None]),
         "evaluations": sum(e["allocs"] + e["frees"] for e in summaries), "valgrind_runs": [n for n, _, _ in vg],
         "distinct_nontrivial": len({e["kind"] for e in summaries}) + len(san),
-        "rule": "nine construction histories (empty Lexicon, unit, names, types incl. foreign transfers, scopes with redeclarations, "
+        "rule": "twelve construction histories (empty Lexicon, unit, names, types incl. foreign transfers, scopes with redeclarations, "
                 "nested regions/handlers/mappings/modules, strings incl. roll-over and oversize pools, the whole zoo built and "
-                "printed, two interleaved Lexicons), each run three times in one process; runs 2 and 3 are entered in the ledger "
+                "printed, two interleaved Lexicons, requests on constants in three successive Lexicons, printing at great depth, every "
+                "kind of lookup table with 300 entries entered in descending / ascending / zig-zag key order), each run three times in one process; runs 2 and 3 are entered in the ledger "
                 "(global operator new/delete replaced): allocation by allocation when <= 400 allocations, as counters otherwise. "
                 "IprLedgerMC is checked both tight (no violation) and with a forgetful owner (violation found) as a vacuity guard. "
                 "The sanitizer runs contribute only their verdict. distinct_nontrivial = history kinds + sanitizer runs.",
